@@ -129,16 +129,31 @@ impl<'a> LogServer<'a> {
     }
     #[instrument]
     async fn process(socket: tokio::net::TcpStream) -> Result<(), ServerError> {
-        let br = tokio::io::BufReader::new(socket);
-        let mut lines = br.lines();
+        let mut br = tokio::io::BufReader::new(socket);
         let mut stdout = tokio::io::stdout();
-        while let Some(line) = lines.next_line().await.map_err(ServerError::LogClient)? {
+        // Relay the client's bytes a line at a time, exactly as they arrive. A line is
+        // neither decoded nor trimmed: a carriage return before the newline, or bytes that
+        // are not UTF-8, are part of what the task wrote and of what its stored log holds.
+        let mut line = Vec::new();
+        while br
+            .read_until(b'\n', &mut line)
+            .await
+            .map_err(ServerError::LogClient)?
+            > 0
+        {
             stdout
-                .write_all(line.as_bytes())
+                .write_all(&line)
                 .await
                 .map_err(ServerError::LogClient)?;
-            _ = stdout.write(b"\n").await.map_err(ServerError::LogClient)?;
+            // a connection that ended in the middle of a line: finish the line
+            if !line.ends_with(b"\n") {
+                stdout
+                    .write_all(b"\n")
+                    .await
+                    .map_err(ServerError::LogClient)?;
+            }
             stdout.flush().await.map_err(ServerError::LogClient)?;
+            line.clear();
         }
         Ok(())
     }
